@@ -1310,6 +1310,10 @@ class Crate:
         text = _INHERENT_IMPL_ELSEWHERE.sub(
             lambda m: (m.group(1) + "::") if m.group(0).startswith(local_prefix + "::")
             and m.group(1).startswith(local_prefix + "::") else m.group(0), text)
+        # an ordered map is a map: rules ask what is inserted, removed and looked up under which key, never for the iteration order
+        # (where an order matters - restart in id order - they ask for the sort)
+        text = text.replace("alloc::collections::btree::map::BTreeMap::<K, V, A>::", "std::collections::hash::map::HashMap::<K, V, S, A>::")
+        text = text.replace("alloc::collections::btree::map::BTreeMap<", "std::collections::hash::map::HashMap<")
         if renames:
             # an item the rules know by its path was moved to another module (`mod gc;` split out of store/mod.rs) or, being private,
             # renamed (xsvlib/baseline.py): it is given its old name back everywhere (definitions, call sites, closures below it), so
